@@ -18,7 +18,40 @@ import tempfile
 import time
 import traceback
 
-from gridlint.corpus import VARIANTS
+from gridlint.corpus import VARIANTS as _CORPUS
+
+
+def _seeded_variants():
+    """Kept seeded changes (written by independent agents, /verif/seeded/<id>/) are replayed as
+    regression variants: those recorded as detected must stay detected by the recorded property."""
+    from gridlint.core import VERIF_DIR
+    out = []
+    sd = os.path.join(VERIF_DIR, "seeded")
+    if not os.path.isdir(sd):
+        return out
+    for sid in sorted(os.listdir(sd)):
+        mp = os.path.join(sd, sid, "meta.json")
+        pp = os.path.join(sd, sid, "patch.diff")
+        if not (os.path.isfile(mp) and os.path.isfile(pp)):
+            continue
+        try:
+            meta = json.load(open(mp))
+        except ValueError:
+            continue
+        for prop, d in (meta.get("detected_now_by") or {}).items():
+            if d.get("exit") != 1:
+                continue
+            frag = ""
+            for ln in d.get("report", []):
+                if "rule=" in ln:
+                    frag = ln.split("rule=")[1].split()[0]
+                    break
+            out.append({"prop": prop, "name": f"seeded change {sid}", "kind": "fire", "expect": frag,
+                        "edits": [("patch", pp)]})
+    return out
+
+
+VARIANTS = list(_CORPUS) + _seeded_variants()
 
 
 def make_scratch(root, need_data_overlay=False):
@@ -63,6 +96,19 @@ def apply_variant(tmp, v):
             _, fn, text = ed
             with open(os.path.join(base, fn), "a", encoding="utf-8") as fh:
                 fh.write(text)
+        elif op == "patch":
+            import re
+            import subprocess
+            # files of the data overlay are symlinks: materialise the ones the patch edits
+            for m in re.finditer(r"^(?:\+\+\+|---) [ab]/(src/grid/data/\S+)", open(ed[1], errors="replace").read(), re.M):
+                fp = os.path.join(tmp, m.group(1))
+                if os.path.islink(fp):
+                    target = os.path.realpath(fp)
+                    os.remove(fp)
+                    shutil.copy(target, fp)
+            r = subprocess.run(["git", "apply", "--whitespace=nowarn", ed[1]], cwd=tmp, capture_output=True, text=True)
+            if r.returncode != 0:
+                return "seeded patch no longer applies to this tree"
         elif op == "rm":
             p = os.path.join(base, ed[1])
             if not os.path.lexists(p):
@@ -110,7 +156,11 @@ def judge(idx, root):
     v = VARIANTS[idx]
     os.environ["GRIDLINT_NO_EVIDENCE"] = "1"
     t0 = time.time()
-    tmp = make_scratch(root, need_data_overlay=any(e[0] in ("rm", "json", "npz") for e in v["edits"]))
+    def touches_data(e):
+        if e[0] in ("rm", "json", "npz"):
+            return True
+        return e[0] == "patch" and "src/grid/data/" in open(e[1], errors="replace").read()
+    tmp = make_scratch(root, need_data_overlay=any(touches_data(e) for e in v["edits"]))
     try:
         skip = apply_variant(tmp, v)
         if skip:
